@@ -328,6 +328,15 @@ def corpus(ctx):
                 continue                                   # constant << constant is evaluated by Python
             out.append(("C01", f"{tree} -> {dst}", lambda k, tree=tree, dst=dst: dslgen.statement(tree, dst, k)["built"]))
 
+    # a constant zero divisor: the generator must refuse what the kernel refuses (F40; a seeded change dropped the
+    # guard for % only, and only the thorough tier had such statements)
+    for left, op, dst in itertools.product([("var", "I"), ("var", "q"), ("reg", "r"), ("local", "H"), ("hash", "Q")],
+                                           ("floordiv", "mod"), [("var", "q"), ("var", "I"), ("reg", "w")]):
+        tree = ("bin", op, left, ("const", 0))
+        out.append(("C01", f"{tree} -> {dst}", lambda k, tree=tree, dst=dst: dslgen.statement(tree, dst, k)["built"]))
+        tree = ("bin", "add", ("bin", op, left, ("const", 0)), ("var", "B"))
+        out.append(("C01", f"{tree} -> {dst}", lambda k, tree=tree, dst=dst: dslgen.statement(tree, dst, k)["built"]))
+
     class Q:
         quick = True
     for sh in c06.shapes(Q()):
